@@ -188,6 +188,8 @@ R_CONDS = [T.NULL, L("ValueDataType", "equal_to", int), L("Value", "in_range", 0
            L("Value", "equal_to", {"name": "x", "path": ["b"]}), L("Value", "in_", [{"path": ["b"], "k": 1}, 2]),
            L("Value", "items_contain", a={"n": 1, "Path.first": ["b"], "z": 2}),
            # a literal one-item mapping keyed like the callable's own parameter
+           # a path-like literal below the one level the parser inspects (taken verbatim)
+           L("Value", "equal_to", {"opts": {"target": {"path": ["x"]}}}), L("Value", "in_", [{"o": [{"path": ["x"]}]}, 1]),
            L("Value", "equal_to", {"value": 3}), ("or", L("Value", "in_", {"value": "abc"}), L("ValueLength", "equal_to", {"value": 1}))]
 R_CASTS = [(), (("str", "bool"),), (("str", "int"),)]
 DOC_FORMS = [
